@@ -87,6 +87,10 @@ def _copy_applies_kwargs(prog: Program, cp: FuncInfo) -> Tuple[bool, str]:
                 vals = list(v.values)
                 if 'name' not in keys or dotted(vals[keys.index('name')]) != 'self.name':
                     return False, f'`{norm(v)[:80]}` does not default name to self.name'
+                for opt in ('context', 'positional'):
+                    if opt not in keys or dotted(vals[keys.index(opt)]) != f'self.{opt}':
+                        return False, (f'`{norm(v)[:80]}` does not carry {opt}=self.{opt}: the copy is built with the default {opt}, so a method merged '
+                                       f'into another registry loses its {opt} setting')
                 later = [dotted(vals[i]) for i in range(keys.index('name') + 1, len(keys)) if v.keys[i] is None]
                 if kwp not in later:
                     return False, f'`{norm(v)[:80]}`: the keyword arguments of copy() do not override the defaults'
@@ -98,6 +102,10 @@ def _copy_applies_kwargs(prog: Program, cp: FuncInfo) -> Tuple[bool, str]:
                     return False, f'keyword arguments `{norm(v)[:60]}` not recognised'
                 if not any(k.arg == 'name' and dotted(k.value) == 'self.name' for k in base_.keywords):
                     return False, f'`{norm(base_)[:80]}` does not default name to self.name'
+                for opt in ('context', 'positional'):
+                    if not any(k.arg == opt and dotted(k.value) == f'self.{opt}' for k in base_.keywords):
+                        return False, (f'`{norm(base_)[:80]}` does not carry {opt}=self.{opt}: the copy is built with the default {opt}, so a method '
+                                       f'merged into another registry loses its {opt} setting')
                 upd = [m for m in cfg.stmt_nodes() for c in calls_in(m) if isinstance(c.func, ast.Attribute) and c.func.attr == 'update'
                        and dotted(c.func.value) == var and c.args and dotted(c.args[0]) == kwp]
                 if not upd or not all(n.id in cfg.reachable(m) for m in upd) or not cfg.dominated_by(n, upd):
@@ -421,6 +429,8 @@ def run(ck: Check, prog: Program) -> None:
                     break
                 sqs = flv.seq(cur_n, cur_e)
                 if len(sqs) != 1 or sqs[0].kind != 'iter' or sqs[0].target is None or not isinstance(sqs[0].target, ast.Name):
+                    if len(leafs) == 1 and isinstance(leafs[0].expr, ast.Call) and [dotted(a) for a in leafs[0].expr.args] == ['cls']:
+                        why = f'members are enumerated from `{norm(leafs[0].expr)}`, not from dir(cls) (inherited members are part of a view)'
                     break
                 sq = sqs[0]
                 stages.append((sq.target.id, list(sq.filters), [x.expr for x in sq.elt]))
